@@ -63,6 +63,10 @@ func (r *Reader) Reset() error {
 
 	r.leafNode = nil
 
+	// the history of the key being listed is not resumed after a reset
+	r.leafValue = nil
+	r.hoff = 0
+
 	return nil
 }
 
